@@ -239,7 +239,16 @@ pub fn run(plan: &C14Plan, sched: &Sched) -> Outcome {
                             let is_head = first.starts_with("HEAD ");
                             saw.lock().unwrap().push(first);
                             let body = "hello from the backend";
-                            let resp = format!("HTTP/1.1 200 OK\r\ncontent-length: {}\r\ncontent-type: text/plain\r\nx-served-by: backend\r\n\r\n{}", body.len(), if is_head { "" } else { body });
+                            // the answer depends on every header line the backend was sent (a site that
+                            // speaks WebSocket itself answers an Upgrade differently from a plain GET): a
+                            // refused request to a gated path must reach it exactly like the twin's
+                            let mut lines: Vec<&str> = text.split("\r\n").skip(1).filter(|l| !l.is_empty()).collect();
+                            lines.sort_unstable();
+                            let mut h = 0xcbf2_9ce4_8422_2325u64;
+                            for b in lines.join("\n").bytes() {
+                                h = (h ^ b as u64).wrapping_mul(0x1000_0000_01b3);
+                            }
+                            let resp = format!("HTTP/1.1 200 OK\r\ncontent-length: {}\r\ncontent-type: text/plain\r\nx-served-by: backend\r\nx-request-headers-seen: {h:016x}\r\n\r\n{}", body.len(), if is_head { "" } else { body });
                             if s.write_all(resp.as_bytes()).await.is_err() {
                                 return;
                             }
